@@ -1150,6 +1150,11 @@ struct Sim<'a> {
     fresh_leader: Option<usize>,
     /// asynchronous log fetches in progress: (node, to, term, aggressively) taken from the node's storage
     fetching: Vec<(usize, u64, u64, bool)>,
+    /// nodes whose disk is slow: entries are written (readable through Storage) but the completion notice
+    /// (on_persist_entries) stays away for a long time — a leader then commits on its followers' acknowledgements only
+    slow_disk: Vec<bool>,
+    /// nodes whose application is behind with applying (committed entries are handed out but not applied yet)
+    apply_lag: Vec<bool>,
 }
 
 fn role_name(s: StateRole) -> &'static str {
@@ -1415,7 +1420,8 @@ impl<'a> Sim<'a> {
             }
         }
         if let Some((idx, term)) = self.nodes[i].unreported {
-            if full || self.rng.chance(85) {
+            let held = self.slow_disk[i] && !self.rng2.chance(4);
+            if !held && (full || self.rng.chance(85)) {
                 if self.rng.chance(10) && idx > 1 {
                     // a stale / partial notice first
                     let k = 1 + self.rng.below(idx);
@@ -1435,7 +1441,7 @@ impl<'a> Sim<'a> {
             }
         }
         // apply
-        if full || self.rng.chance(85) {
+        if !self.apply_lag[i] && (full || self.rng.chance(85)) {
             self.apply(i);
         }
         if self.nodes[i].st.is_none() {
@@ -1993,8 +1999,76 @@ impl<'a> Sim<'a> {
         }
     }
 
+    /// scenario: a leader proposes its own removal (or demotion); the change commits but the leader's application is slow to
+    /// apply it; meanwhile more entries are proposed and acknowledged by the followers while the leader's own disk is slow
+    /// (its own acknowledgement stays behind); then the leader applies its removal
+    fn self_removal(&mut self) {
+        let Some(l) = self.leader() else { return };
+        let lid = self.nodes[l].id;
+        let n = self.nodes.len();
+        Coverage::bump(&mut self.cov.events, "scenario_self_removal".into());
+        self.apply_lag[l] = true;
+        let mut cc = ConfChangeV2::default();
+        let ty = if self.rng2.chance(70) { ConfChangeType::RemoveNode } else { ConfChangeType::AddLearnerNode };
+        cc.mut_changes().push(single(ty, lid));
+        if !self.call(l, Op::ProposeCc(2, vec![], cc.write_to_bytes().unwrap())) {
+            self.apply_lag[l] = false;
+            return;
+        }
+        for _ in 0..4 {
+            for k in 0..n {
+                self.housekeeping(k, true);
+            }
+            self.deliver_all_unheld();
+        }
+        self.slow_disk[l] = true;
+        let extra = 1 + self.rng2.below(3);
+        for _ in 0..extra {
+            if self.nodes[l].st.is_none() {
+                break;
+            }
+            let d = self.payload();
+            self.call(l, Op::Propose(vec![], d));
+            for _ in 0..2 {
+                for k in 0..n {
+                    self.housekeeping(k, true);
+                }
+                self.deliver_all_unheld();
+            }
+        }
+        self.apply_lag[l] = false;
+        if self.rng2.chance(50) {
+            self.slow_disk[l] = false;
+        }
+        self.housekeeping(l, true);
+        for _ in 0..2 {
+            for k in 0..n {
+                self.housekeeping(k, true);
+            }
+            self.deliver_all_unheld();
+        }
+        self.slow_disk[l] = false;
+    }
+
     fn extra_faults(&mut self) {
         self.async_fetch();
+        if self.rng2.below(1000) < 3 {
+            self.self_removal();
+        }
+        {
+            let x = self.rng2.below(1000);
+            if x < 6 {
+                // a disk becomes slow — most of the time the leader's
+                let n = self.nodes.len();
+                let i = match (self.leader(), self.rng2.chance(70)) { (Some(l), true) => l, _ => self.rng2.below(n as u64) as usize };
+                self.slow_disk[i] = true;
+                Coverage::bump(&mut self.cov.events, "slow_disk".into());
+            } else if x < 20 {
+                for f in self.slow_disk.iter_mut() {
+                    *f = false;
+                }
+            }
+        }
         if self.rng2.below(1000) < 15 {
             // a late duplicate of an old persistence notice (the entries at that index may have been replaced since)
             let i = self.rng2.below(self.nodes.len() as u64) as usize;
@@ -2368,7 +2442,7 @@ fn cluster(seed: u64, malformed: bool, cov: &mut Coverage) -> Sim<'_> {
         let store = build_storage(&hs, &cs, snap, mine);
         nodes.push(SimNode { id, st: None, cfg, store, snap, lines: Arc::new(Mutex::new(vec![])), unreported: None, old_notices: vec![], restarts: 0 });
     }
-    Sim { nodes, net: vec![], rng, cov, isolated: vec![false; total as usize], next_payload: 1, malformed, et, calls: 0, old_reads: vec![], read_dups_left: 150, rng2: Rng::new(seed ^ 0x5EED_FA17), held: vec![], fresh_leader: None, fetching: vec![] }
+    Sim { nodes, net: vec![], rng, cov, isolated: vec![false; total as usize], next_payload: 1, malformed, et, calls: 0, old_reads: vec![], read_dups_left: 150, rng2: Rng::new(seed ^ 0x5EED_FA17), held: vec![], fresh_leader: None, fetching: vec![], slow_disk: vec![false; total as usize], apply_lag: vec![false; total as usize] }
 }
 
 /// `rn new` lines with damaged configurations / storages: `Config::validate`, the restore of the
